@@ -77,6 +77,9 @@ func (n intLit) src() string { return fmt.Sprint(n.v) }
 func (n nilLit) src() string { return "nil" }
 func (n varRef) src() string { return n.name }
 func (n assign) src() string {
+	if n.op == "=>" {
+		return "(" + n.e.src() + " => " + n.name + ")"
+	}
 	if n.op == "" {
 		return n.name + " := " + n.e.src()
 	}
@@ -357,7 +360,7 @@ func (r *refEval) eval(n node, env *frame) value {
 		return v
 	case assign:
 		var v value
-		if x.op == "" {
+		if x.op == "" || x.op == "=>" {
 			v = r.eval(x.e, env)
 		} else {
 			cur, ok := env.get(x.name)
